@@ -65,8 +65,13 @@ func (a *DiffArgs) N() int {
 // DiffOut accumulates the canonical output of an operation: a sequence of
 // (tag, length, bytes) records.  Errors are recorded by nil-ness only.
 type DiffOut struct {
-	buf bytes.Buffer
+	buf     bytes.Buffer
+	classes []string
 }
+
+// Class adds a label to the class histogram of the evidence (next to the
+// operation name); it is not part of the compared output.
+func (o *DiffOut) Class(label string) { o.classes = append(o.classes, label) }
 
 func (o *DiffOut) rec(tag string, b []byte) {
 	var l [4]byte
@@ -220,7 +225,7 @@ func RunDiffOps(t *testing.T, pkg, backend string, ops []DiffOp) {
 		}
 		var o DiffOut
 		op.Exec(&DiffArgs{c: &c}, &o)
-		return o.buf.Bytes(), []string{c.Op}, diffNonTrivial(&c)
+		return o.buf.Bytes(), append([]string{c.Op}, o.classes...), diffNonTrivial(&c)
 	}
 	RunDiff(t, gen, exec)
 }
